@@ -1,15 +1,19 @@
 /-
   Sanity lemmas about `Model/Isimip.lean` (the shared model of ISIMIP's per-window pipeline): the pieces that
-  are the identity for a given configuration really are, lengths are preserved, and step 7 restores exactly what
-  step 3 removed.  The property theorems (C01/C02/C04/C09/C10) live in `Props/`.
+  are the identity for a given configuration really are, lengths are preserved, step 7 restores exactly what
+  step 3 removed, and for tas-like settings (no finite threshold) steps 5 and 6 reduce to the plain trend transfer and
+  the plain quantile mapping of the sorted samples (`step5_unbounded`, `step6Full_unbounded`,
+  `adjustBetween_parametric_unbounded`).  The property theorems (C01/C02/C04/C09/C10) live in `Props/`.
 -/
 import IbicusModel.Model.Isimip
+import IbicusModel.Lemmas.StatsRank
+import IbicusModel.Lemmas.IsimipFreq
 import Mathlib.Tactic.Ring
 import Mathlib.Tactic.Linarith
 import Mathlib.Algebra.Order.Field.Basic
 
 namespace Lemmas.IsimipModel
-open Model.Isimip Model.Stats
+open Model.Isimip Model.Stats Model.IsimipFreq
 
 /-- tas-like settings (the attrs defaults: `∓inf`): none of the `has_*` properties holds -/
 theorem has_nothing_of_infinite (c : Cfg) (h1 : c.lowerBound = .negInf) (h2 : c.lowerThreshold = .negInf)
@@ -102,5 +106,223 @@ theorem applyOnWindow_eq (c : Cfg) (fam : IsiFamily) (o : Oracles) (d : Draws) (
           (fun oF => (step6 c fam o r4.1 oF r4.2.1 r4.2.2).bind
             (fun r => .ok (step7 c r (step3 c o obs H F yO yH yF).2.2.2)))) := by
   rfl
+
+/-! ### lengths, and the reduction of steps 5 and 6 for tas-like settings (no finite threshold) -/
+
+/-- `cm_future[np.argsort(cm_future)]` is the sorted array -/
+theorem takeIdx_argsort (F : List Rat) : takeIdx F (argsort F) = sortQ F := by
+  rw [← Lemmas.Stats.pairs_fst, Lemmas.Stats.argsort_eq]
+  unfold takeIdx
+  rw [List.map_map]
+  apply List.map_congr_left
+  intro p hp
+  have hp' : p ∈ F.zip (List.range F.length) := (Lemmas.Stats.pairs_perm F).mem_iff.mp hp
+  exact (Lemmas.Stats.mem_zip_range hp').2
+
+theorem selectWhere_all_true (x : List Rat) : Py.selectWhere x (List.replicate x.length true) = x := by
+  induction x with
+  | nil => rfl
+  | cons a t ih => simpa [Py.selectWhere, List.replicate_succ] using ih
+
+theorem fillWhere_all_true (x v : List Rat) (h : v.length = x.length) :
+    fillWhere x (List.replicate x.length true) v = v := by
+  induction x generalizing v with
+  | nil => cases v with
+    | nil => rfl
+    | cons b s => simp at h
+  | cons a t ih => cases v with
+    | nil => simp at h
+    | cons b s =>
+      simp only [List.length_cons, Nat.add_right_cancel_iff] at h
+      simp [List.replicate_succ, fillWhere, ih s h]
+
+theorem qmap_length (em : EcdfMethod) (im : IecdfMethod) (x y v : List Rat) : (qmap em im x y v).length = v.length := by
+  simp [qmap, iecdf, ecdf]
+
+theorem qmapIsimip_length (x y : List Rat) : (qmapIsimip x y).length = x.length := by
+  simp [qmapIsimip, interp, rankAvg]
+
+theorem linspace_length (a b : Rat) (n : Nat) : (linspace a b n).length = n := by
+  unfold linspace
+  split
+  · next h => simp [h]
+  · simp
+
+theorem interpOnLength_length (cdf : List Rat) (m : Nat) : (interpOnLength cdf m).length = m := by
+  simp [interpOnLength, interp, linspace_length]
+
+theorem elaProbabilities_length (o : Oracles) (cO cH cF : List Rat) (hO : cO.length = cF.length) (hH : cH.length = cF.length) :
+    (elaProbabilities o cO cH cF).length = cF.length := by
+  simp [elaProbabilities, hO, hH]
+
+theorem qmapXonY_length (c : Cfg) (x y : List Rat) : (qmapXonY c x y).length = x.length := by
+  unfold qmapXonY
+  cases c.modeNpqm <;> simp [qmap_length, qmapIsimip_length]
+
+theorem ite_pre_length (p : Prop) [Decidable p] (c : Cfg) (Fns Fbt : List Rat) :
+    (if p then qmapXonY c Fns Fbt else Fns).length = Fns.length := by
+  split <;> simp [qmapXonY_length]
+
+/-- every return of `_step6_adjust_values_between_thresholds` has one value per entry of `cm_future_not_sent_to_bound` -/
+theorem adjustBetween_length (c : Cfg) (fam : IsiFamily) (o : Oracles) (Obt OFbt Hbt Fns Fbt : List Rat)
+    (r : List Rat × Branch × Bool) (h : adjustBetween c fam o Obt OFbt Hbt Fns Fbt = .ok r) :
+    r.1.length = Fns.length := by
+  unfold adjustBetween at h
+  split at h
+  · cases h; simp [qmap_length]
+  · simp only [] at h
+    split at h
+    · cases h; simp [qmap_length, ite_pre_length]
+    · split at h
+      · cases h; simp [qmap_length, ite_pre_length]
+      · cases hfa : fixedArgs c with
+        | error e => rw [hfa] at h; simp [bind, Except.bind] at h
+        | ok fa =>
+          rw [hfa] at h
+          simp only [bind, Except.bind] at h
+          split at h
+          · split at h
+            · cases h; simp [qmap_length, ite_pre_length]
+            · split at h
+              · cases h; simp [ite_pre_length]
+              · split at h
+                · cases h
+                  simp only [List.length_map]
+                  rw [elaProbabilities_length] <;> simp [interpOnLength_length, ite_pre_length]
+                · simp at h
+          · cases h; simp [qmap_length, ite_pre_length]
+
+theorem lowerMask_zero (n : Nat) : lowerMask 0 n = List.replicate n false := by
+  simp [lowerMask, pySliceIdx]
+
+theorem upperMask_zero (n : Nat) : upperMask 0 n = List.replicate n false := by
+  have h : ¬ ((n : Int) < 0) := by omega
+  simp [upperMask, pySliceIdx, h]
+
+theorem finalCounts_zero (n : Nat) : finalCounts 0 0 (n : Int) = (0, 0) := by
+  simp [finalCounts]
+
+theorem setBound_all_false (xs : List Rat) (n : Nat) (b : ExtRat) : setBound xs (List.replicate n false) b = .ok xs := by
+  simp [setBound]
+
+theorem notMask_all_false (n : Nat) : notMask (List.replicate n false) (List.replicate n false) = List.replicate n true := by
+  simp [notMask]
+
+theorem sortQ_ne_nil {x : List Rat} (h : x ≠ []) : sortQ x ≠ [] := by
+  intro h'
+  have := Lemmas.Stats.sortQ_length x
+  rw [h'] at this
+  exact h (List.length_eq_zero_iff.mp this.symm)
+
+/-- **tas-like settings (no finite threshold): step 6 is the quantile mapping of the sorted `cm_future` onto the
+    sorted pseudo-future observations, put back in the original order** — no entry goes to a bound, nothing is
+    filtered, no pre-mapping -/
+theorem step6Full_unbounded (c : Cfg) (fam : IsiFamily) (o : Oracles) (obs oF H F : List Rat)
+    (h2 : c.lowerThreshold = .negInf) (h4 : c.upperThreshold = .posInf) (hF : F ≠ []) (hoF : oF ≠ []) :
+    step6Full c fam o obs oF H F =
+      match adjustBetween c fam o (sortQ obs) (sortQ oF) (sortQ H) (sortQ F) (sortQ F) with
+      | .ok t => .ok { nL := 0, nU := 0, branch := t.2.1, premapped := t.2.2, mappedSorted := t.1,
+                       result := takeIdx t.1 (rankOf F) }
+      | .error e => .error e := by
+  have hlt : c.hasLowerThreshold = false := by simp [Cfg.hasLowerThreshold, h2, ExtRat.gtNegInf]
+  have hut : c.hasUpperThreshold = false := by simp [Cfg.hasUpperThreshold, h4, ExtRat.ltPosInf]
+  have hn : 0 < (sortQ F).length := List.length_pos_iff.mpr (sortQ_ne_nil hF)
+  have hn' : 0 < (sortQ oF).length := List.length_pos_iff.mpr (sortQ_ne_nil hoF)
+  unfold step6Full
+  simp only [takeIdx_argsort, hlt, hut, Bool.false_eq_true, if_false, finalCounts_zero, lowerMask_zero, upperMask_zero,
+    setBound_all_false, notMask_all_false, valuesBetween_of_infinite c h2 h4, selectWhere_all_true, bind, Except.bind]
+  have hany : (List.replicate (sortQ F).length true).any id = true := by
+    cases hl : (sortQ F).length with
+    | zero => omega
+    | succ k => simp [List.replicate_succ]
+  simp only [hany, if_true, hn']
+  cases hadj : adjustBetween c fam o (sortQ obs) (sortQ oF) (sortQ H) (sortQ F) (sortQ F) with
+  | error e => rfl
+  | ok t =>
+    have hlen := adjustBetween_length c fam o _ _ _ _ _ t hadj
+    simp only [pure, Except.pure, fillWhere_all_true _ _ hlen]
+
+/-- closed form of the parametric branch for tas-like settings: both fits free (`floc = fscale = None`), no
+    pre-mapping: `ppf_obsfut (clip (cdf_cmfut x))` for every sorted value -/
+theorem adjustBetween_parametric_unbounded (c : Cfg) (fam : IsiFamily) (o : Oracles) (Obt OFbt Hbt Fns : List Rat)
+    (h2 : c.lowerThreshold = .negInf) (h4 : c.upperThreshold = .posInf)
+    (hnp : c.nonparametricQm = false) (hF : 2 ≤ Fns.length) (hOF : 2 ≤ OFbt.length)
+    (fitF fitOF : Rat × Rat) (hfF : fam.fit Fns none none = some fitF) (hfO : fam.fit OFbt none none = some fitOF)
+    (hks : (c.ksTest && !o.ksGood) = false) (hela : c.eventLikelihoodAdjustment = false) :
+    adjustBetween c fam o Obt OFbt Hbt Fns Fns =
+      .ok (Fns.map (fun v => fam.ppf fitOF (thrCdf (fam.cdf fitF v))), .parametric, false) := by
+  have hlt : c.hasLowerThreshold = false := by simp [Cfg.hasLowerThreshold, h2, ExtRat.gtNegInf]
+  have hut : c.hasUpperThreshold = false := by simp [Cfg.hasUpperThreshold, h4, ExtRat.ltPosInf]
+  have hth : c.hasThreshold = false := by simp [Cfg.hasThreshold, hlt, hut]
+  have hfa : fixedArgs c = .ok (none, none) := by
+    simp [fixedArgs, hlt, hut, pure, Except.pure, bind, Except.bind]
+  have h0 : ¬ Fns.length = 0 := by omega
+  have h1 : (decide (Fns.length = 1) || decide (OFbt.length ≤ 1)) = false := by
+    simp only [Bool.or_eq_false_iff, decide_eq_false_iff_not]; omega
+  unfold adjustBetween
+  simp only [hnp, hth, Bool.false_and, Bool.false_eq_true, if_false, h0, h1, hfa, bind, Except.bind, hfF, hfO, hks, hela,
+    Bool.not_false, if_true, pure, Except.pure, List.map_map]
+  rfl
+
+/-- closed form of `nonparametric_qm = True` -/
+theorem adjustBetween_npqm (c : Cfg) (fam : IsiFamily) (o : Oracles) (Obt OFbt Hbt Fns Fbt : List Rat)
+    (hnp : c.nonparametricQm = true) :
+    adjustBetween c fam o Obt OFbt Hbt Fns Fbt = .ok (qmap c.ecdfMethod c.iecdfMethod Fns OFbt Fns, .npqm, false) := by
+  simp [adjustBetween, hnp]
+
+/-- `step6` returns one value per value of `cm_future` -/
+theorem step6Full_result_length (c : Cfg) (fam : IsiFamily) (o : Oracles) (obs oF H F : List Rat) (r : Step6Out)
+    (h : step6Full c fam o obs oF H F = .ok r) : r.result.length = F.length := by
+  unfold step6Full at h
+  simp only [bind, Except.bind] at h
+  repeat' split at h
+  all_goals first
+    | (cases h; simp [takeIdx, Lemmas.Stats.rankOf_length])
+    | (simp at h)
+
+theorem map_const_true (x : List Rat) : x.map (fun _ => true) = List.replicate x.length true := by
+  induction x with
+  | nil => rfl
+  | cons a t ih => simp [List.replicate_succ, ih]
+
+/-- `_step5_transfer_trend` returns one value per observation -/
+theorem step5TransferTrend_length (c : Cfg) (o : Oracles) (obs H F r : List Rat)
+    (h : step5TransferTrend c o obs H F = .ok r) : r.length = obs.length := by
+  unfold step5TransferTrend at h
+  split at h
+  · simp at h
+  · cases htm : c.trendMethod <;> rw [htm] at h <;> simp only [] at h
+    · cases h; simp [iecdf, ecdf]
+    · cases h; simp [iecdf, ecdf]
+    · cases h; simp [iecdf, ecdf]
+    · cases ha : c.lowerBound.toRat with
+      | error e => rw [ha] at h; simp [bind, Except.bind] at h
+      | ok a =>
+        cases hb : c.upperBound.toRat with
+        | error e => rw [ha, hb] at h; simp [bind, Except.bind] at h
+        | ok b => rw [ha, hb] at h; simp only [bind, Except.bind, pure, Except.pure] at h; cases h; simp [iecdf, ecdf]
+
+/-- tas-like settings: `step5` is `_step5_transfer_trend` on the whole samples, whatever
+    `trend_transfer_only_for_values_within_threshold` says -/
+theorem step5_unbounded (c : Cfg) (o : Oracles) (obs H F : List Rat)
+    (h2 : c.lowerThreshold = .negInf) (h4 : c.upperThreshold = .posInf) (hO : obs ≠ []) (hH : H ≠ []) (hF : F ≠ []) :
+    step5 c o obs H F = step5TransferTrend c o obs H F := by
+  unfold step5
+  split
+  · rw [valuesBetween_of_infinite c h2 h4, valuesBetween_of_infinite c h2 h4, maskBetween_of_infinite c h2 h4, map_const_true]
+    simp only [selectWhere_all_true]
+    have hany : (List.replicate obs.length true).any id = true := by
+      cases obs with
+      | nil => exact absurd rfl hO
+      | cons a t => simp [List.replicate_succ]
+    have h1 : 0 < H.length := List.length_pos_iff.mpr hH
+    have h3 : 0 < F.length := List.length_pos_iff.mpr hF
+    simp only [hany, h1, h3, decide_true, Bool.and_self, if_true]
+    cases ht : step5TransferTrend c o obs H F with
+    | error e => rfl
+    | ok t =>
+      simp only [bind, Except.bind, pure, Except.pure]
+      rw [fillWhere_all_true _ _ (step5TransferTrend_length c o obs H F t ht)]
+  · rfl
 
 end Lemmas.IsimipModel
